@@ -309,6 +309,315 @@ class P(Prop):
                 yield {"pil": pil[:i] + [[e[0], e[1], e[2][:t] + e[2][t + 1 :]]] + pil[i + 1 :]}
 
 
+# ---- the file argument: `group_proteins(peptide_info_list, mq_protein_groups_file)` for every class the factory builds ----
+# A case with the key "mq" (None | "unreadable" | {"header", "rows"}; "mq_falsy": None | "" when None) additionally calls
+#   ProteinGroupingStrategyFactory(name).group_proteins(pil, <file argument>)      for the six names, and
+#   methods.parse_method_toml(case["method"], case["pseudo"]).grouping_strategy.group_proteins(pil, <file argument>)
+# and compares the returned objects (groups, index, flag) with `PgFdr.C03.groupProteinsObj` (Model/C03Kinds.lean, driver op
+# "group_kind").  Oracle: for `no` / `subset` / `rescued_subset` (first pass) / `pseudo_gene` — and for the method's declared
+# grouping, `pseudo_gene` when pseudo-genes are requested — the C03 statement on the peptide list, whatever file was passed.
+# The MaxQuant-native kinds are compared with the model only (the property states nothing about a grouping read from a file).
+KINDS = ["no", "subset", "rescued_subset", "mq_native", "rescued_mq_native", "pseudo_gene"]
+STATED = {"no": "no", "subset": "subset", "rescued_subset": "subset", "pseudo_gene": "pseudo_gene"}
+BLANKS = [" ", " ", "  ", "\xa0", " "]
+_FILE_MODES = ["valid_subset", "valid_subset", "singletons", "one_group", "partition", "partition", "partial", "foreign",
+               "overlap", "empty"]
+
+
+def own_subset_grouping(rows):
+    """a grouping that satisfies the C03 subset statement, made with Python sets (not the code's algorithm): one leader
+    per distinct inclusion-maximal peptide set, every other protein joins the first leader containing its set"""
+    ps = _pepsets({"pil": [["PEP%d" % i, PEP, r] for i, r in enumerate(rows)]})
+    prots = sorted(ps)
+    leaders = []
+    for p in prots:
+        if not any(ps[p] < ps[q] for q in prots) and not any(ps[p] == ps[l] for l in leaders):
+            leaders.append(p)
+    groups = {l: [l] for l in leaders}
+    for p in prots:
+        if p not in groups:
+            groups[next(l for l in leaders if ps[p] <= ps[l])].append(p)
+    return [groups[l] for l in leaders]
+
+
+def gen_mq_table(rng, rows):
+    """a small proteinGroups.txt for the peptide list `rows` (lists of proteins): groups equal to a valid subset grouping, or
+    different from it (singletons, everything merged, a random partition, proteins missing / unknown proteins added, a
+    protein in two rows, no rows), sometimes with a missing column or a short row; returns (table | "unreadable", mode)"""
+    if rng.random() < 0.06:
+        return "unreadable", "unreadable"
+    prots = sorted({p for r in rows for p in r}) or ["A"]
+    mode = rng.choice(_FILE_MODES)
+    if mode == "valid_subset":
+        groups = own_subset_grouping(rows) or [[prots[0]]]
+    elif mode == "singletons":
+        groups = [[p] for p in prots]
+    elif mode == "one_group":
+        groups = [list(prots)]
+    elif mode == "empty":
+        groups = []
+    else:
+        sh = list(prots)
+        rng.shuffle(sh)
+        if mode == "partial" and len(sh) > 1:
+            sh = sh[: rng.randint(1, len(sh) - 1)]
+        if mode == "foreign":
+            sh += ["Z%d" % i for i in range(rng.randint(1, 2))]
+            rng.shuffle(sh)
+        groups = []
+        for p in sh:
+            if groups and rng.random() < 0.5:
+                rng.choice(groups).append(p)
+            else:
+                groups.append([p])
+        if mode == "overlap" and groups:
+            rng.choice(groups).append(rng.choice(prots))
+    if groups and rng.random() < 0.3:
+        rng.shuffle(groups)
+    extra = rng.sample(["Majority protein IDs", "Peptide counts (all)", "protein ids", "Q-value"], rng.randint(0, 2))
+    header = ["Protein IDs", "Score"] + extra
+    rng.shuffle(header)
+    err = rng.random()
+    if err < 0.04:
+        header = [h for h in header if h != "Score"] or ["x"]
+        mode += "+no-score-column"
+    elif err < 0.08:
+        header = [h for h in header if h != "Protein IDs"] or ["x"]
+        mode += "+no-protein-column"
+
+    def cell(g):
+        names = [(rng.choice(BLANKS) if rng.random() < 0.1 else "") + p + (rng.choice(BLANKS) if rng.random() < 0.1 else "") for p in g]
+        return ";".join(names)
+
+    table_rows = []
+    for g in groups:
+        r = []
+        for h in header:
+            if h in ("Protein IDs", "protein ids"):
+                r.append(cell(g))
+            elif h == "Majority protein IDs":
+                r.append(g[0])
+            elif h == "Score":
+                r.append(rng.choice(["25.3", "11.25", "0", "-3", "", "323.31"]))
+            else:
+                r.append(rng.choice(["1", "0.01", "2;1"]))
+        table_rows.append(r)
+    if table_rows and 0.08 <= err < 0.11:
+        k = rng.randrange(len(table_rows))
+        table_rows[k] = table_rows[k][: rng.randint(1, len(header) - 1)] if len(header) > 1 else table_rows[k]
+        mode += "+short-row"
+    return {"header": header, "rows": table_rows}, mode
+
+
+def _obj(pg):
+    return {"groups": [list(g) for g in pg.protein_groups], "valid": bool(pg.valid_idx),
+            "index": sorted([k, v] for k, v in pg.protein_to_group_idx_map.items())}
+
+
+def _describe_file(case):
+    mq = case.get("mq")
+    if mq is None:
+        return "no file (%r)" % (case.get("mq_falsy"),)
+    if mq == "unreadable":
+        return "a path at which there is no file"
+    return "a proteinGroups.txt with columns %r and rows %r" % (mq["header"], mq["rows"])
+
+
+_BaseP0 = P
+
+
+class P(_BaseP0):
+    file_share = 0.5
+    rule = _BaseP0.rule + (
+        "; half of the cases also carry the second argument of group_proteins — none (None / ''), a path without a file, or a "
+        "generated proteinGroups.txt whose groups equal a valid subset grouping of the peptide list or differ from it "
+        "(singletons, all merged, random partition, proteins missing, unknown proteins, a protein in two rows, no rows; 8 % "
+        "without the Score / Protein IDs column, 3 % with a short row) — and call the six classes of the grouping factory and "
+        "the grouping strategy of a shipped method file (30 % with pseudo-genes requested) with it"
+    )
+    assumptions = _BaseP0.assumptions + [
+        "cells of the generated proteinGroups.txt contain no tab, quote or line break (the csv layer is trusted) and Score cells "
+        "are decimal literals or empty (float() of the cell is not modelled)",
+    ]
+
+    def gen_case(self, rng, tier):
+        case = super().gen_case(rng, tier)
+        if rng.random() < self.file_share:
+            self._add_file(rng, case)
+        return case
+
+    @staticmethod
+    def _add_file(rng, case, p_none=0.2):
+        import pipeline as pl
+
+        if rng.random() < p_none:
+            case["mq"], case["mq_falsy"], case["mq_mode"] = None, rng.choice([None, ""]), "none"
+        else:
+            case["mq"], case["mq_mode"] = gen_mq_table(rng, [e[2] for e in case["pil"]])
+        if "method" not in case:
+            case["method"] = rng.choice(pl.method_names())
+            case["pseudo"] = rng.random() < 0.3
+        return case
+
+    def exhaustive_cases(self, tier):
+        out = list(super().exhaustive_cases(tier))
+        # every incidence matrix with <= 3 proteins x <= 3 peptides with: no file, the singletons, everything in one group,
+        # a valid subset grouping, a path without a file
+        names = ["B", "A", "C"]
+        for n in range(1, 4):
+            subsets = [[names[i] for i in range(n) if (mask >> i) & 1] for mask in range(1, 2**n)]
+            for m in range(1, 4):
+                for rows in itertools.product(subsets, repeat=m):
+                    prots = sorted({p for r in rows for p in r})
+                    variants = [None, "unreadable", [[p] for p in prots], [prots], own_subset_grouping(rows), [[p] for p in prots[:-1]]]
+                    for k, v in enumerate(variants):
+                        c = _mk_case(rows)
+                        if isinstance(v, list):
+                            c["mq"] = {"header": ["Protein IDs", "Score"], "rows": [[";".join(g), "1.5"] for g in v]}
+                        else:
+                            c["mq"] = v
+                            if v is None:
+                                c["mq_falsy"] = ""
+                        c["mq_mode"] = "exhaustive"
+                        c["method"] = ["classic_subset_grouping", "picked_protein_group", "savitski"][k % 3]
+                        c["pseudo"] = k >= 3
+                        out.append(c)
+        return out
+
+    # ---------------------------------------------------------------- implementation
+    def run_impl(self, case):
+        out = super().run_impl(case)
+        if "mq" not in case:
+            return out
+        import shutil
+        import tempfile
+
+        import pipeline_oracles as po
+        from picked_group_fdr import grouping, methods
+
+        d = tempfile.mkdtemp(prefix="c03mq")
+        try:
+            arg = po.mq_file_argument(case, d)
+
+            def call(strategy):
+                try:
+                    return _obj(strategy.group_proteins(_pil_dict(case), arg))
+                except ValueError as e:
+                    if str(e).startswith("Missing MQ protein groups file input"):
+                        return {"err": "missing_mq_protein_groups"}
+                    if "is missing. Please check your input file" in str(e):
+                        return {"err": "missing_column"}
+                    raise
+                except FileNotFoundError:
+                    if case["mq"] == "unreadable":
+                        return {"err": "file_not_found"}
+                    raise
+                except IndexError as e:
+                    if str(e) == "list index out of range":
+                        return {"err": "short_row"}
+                    raise
+
+            out["kinds"] = {name: call(grouping.ProteinGroupingStrategyFactory(name)) for name in KINDS}
+            out["method_leg"] = call(methods.parse_method_toml(case["method"], use_pseudo_genes=bool(case["pseudo"])).grouping_strategy)
+        finally:
+            shutil.rmtree(d, ignore_errors=True)
+        return out
+
+    # ---------------------------------------------------------------- model
+    def model_request(self, case, impl_out):
+        reqs = super().model_request(case, impl_out)
+        if "mq" not in case:
+            return reqs
+        import pipeline as pl
+
+        reqs = list(reqs)
+        for name in KINDS:
+            reqs.append({"op": "group_kind", "kind": name, "pil": case["pil"], "mq": case["mq"]})
+        reqs.append({"op": "group_kind", "toml_grouping": pl.method_fields(case["method"])["grouping"], "pseudo": bool(case["pseudo"]),
+                     "pil": case["pil"], "mq": case["mq"]})
+        return reqs
+
+    def model_view(self, case, resp, impl_out):
+        if "mq" not in case:
+            return super().model_view(case, resp, impl_out)
+        base = super().model_view(case, resp[:4], impl_out)
+        if not isinstance(base, dict) or "subset" not in base:
+            return resp
+
+        def view(r):
+            if isinstance(r, dict) and "groups" in r:
+                return {"groups": r["groups"], "valid": r["valid"], "index": sorted(r["index"])}
+            return r
+
+        base["kinds"] = {name: view(r) for name, r in zip(KINDS, resp[4:10])}
+        base["method_leg"] = view(resp[10])
+        return base
+
+    # ---------------------------------------------------------------- the property, whatever file was passed
+    def oracle(self, case, impl_out):
+        r = super().oracle(case, impl_out)
+        if r or "mq" not in case:
+            return r
+        import pipeline as pl
+
+        def stated(res, mode, who):
+            if "err" in res:
+                return "%s, called with %s, returned no groups: %s" % (who, _describe_file(case), res["err"])
+            want = {p: i for i, g in enumerate(res["groups"]) for p in g}
+            if not res["valid"] or dict(map(tuple, res["index"])) != want:
+                return "%s, called with %s, returned a ProteinGroups object with an invalid or wrong index" % (who, _describe_file(case))
+            why = check_groups(case, mode, res["groups"])
+            if why:
+                return "%s, called with %s: %s (groups returned: %r)" % (who, _describe_file(case), why, res["groups"])
+            return None
+
+        for name, mode in STATED.items():
+            why = stated(impl_out["kinds"][name], mode, "grouping %r (ProteinGroupingStrategyFactory)" % name)
+            if why:
+                return why
+        declared = pl.method_fields(case["method"]).get("grouping")
+        mode = "pseudo_gene" if case["pseudo"] else STATED.get(declared)
+        if mode is not None:
+            return stated(impl_out["method_leg"], mode, "the grouping strategy of method %s (grouping %r%s)" % (
+                case["method"], declared, ", pseudo-genes requested" if case["pseudo"] else ""))
+        return None
+
+    # ---------------------------------------------------------------- bookkeeping
+    def features(self, case, impl_out):
+        f = super().features(case, impl_out)
+        if "mq" in case:
+            mq = case["mq"]
+            f.append("file-argument=" + ("none:%r" % (case.get("mq_falsy"),) if mq is None else mq if mq == "unreadable" else "table"))
+            f.append("file-groups=" + str(case.get("mq_mode")))
+            if isinstance(impl_out, dict) and "kinds" in impl_out:
+                k = impl_out["kinds"]
+                f.append("file:mq_native=" + (k["mq_native"].get("err") or "groups"))
+                if "groups" in k["mq_native"] and "groups" in k["subset"]:
+                    same = sorted(map(sorted, k["mq_native"]["groups"])) == sorted(map(sorted, k["subset"]["groups"]))
+                    f.append("file:groups-%s-the-subset-grouping" % ("equal" if same else "differ-from"))
+                import pipeline as pl
+
+                f.append("file:method-grouping=" + ("pseudo_gene(override of %s)" if case["pseudo"] else "%s") % pl.method_fields(case["method"]).get("grouping"))
+        return f
+
+    def shrink(self, case):
+        if "mq" not in case:
+            yield from super().shrink(case)
+            return
+        for s in super().shrink(case):
+            yield dict(case, pil=s["pil"])
+        mq = case["mq"]
+        if isinstance(mq, dict):
+            for i in range(len(mq["rows"])):
+                yield dict(case, mq=dict(mq, rows=mq["rows"][:i] + mq["rows"][i + 1 :]))
+            for i, r in enumerate(mq["rows"]):
+                for j, c in enumerate(r):
+                    parts = c.split(";")
+                    if len(parts) > 1:
+                        for t in range(len(parts)):
+                            yield dict(case, mq=dict(mq, rows=mq["rows"][:i] + [r[:j] + [";".join(parts[:t] + parts[t + 1 :])] + r[j + 1 :]] + mq["rows"][i + 1 :]))
+
+
 # ---- pipeline-level cases: the whole `get_protein_group_results` for every shipped method file against the composed Lean
 # model PgFdr.Pipeline.run, with the C03 statement as the oracle: the groups handed to the FIRST competition must be the
 # grouping the request asked for (the method file's; pseudo_gene when pseudo-genes are requested) of the case's peptide
@@ -324,10 +633,47 @@ class P(_po.PipelineMixin2, _BaseP):
     pipeline_share = 0.06      # ~36 of the 600 quick cases
     pipeline_prior_request_share = 0.5
     pipeline_pseudo_share = 0.3
+    pipeline_file_share = 0.6  # share of the pipeline cases that pass a proteinGroups.txt as mq_protein_groups_file
     pipeline_oracles = ("c03",)
+
+    def gen_case(self, rng, tier):
+        case = super().gen_case(rng, tier)
+        if isinstance(case, dict) and case.get("kind") == "pipeline" and rng.random() < self.pipeline_file_share:
+            # groups that cover the observed proteins, so that the run reaches its competitions whatever grouping is used
+            for _ in range(20):
+                mq, mode = gen_mq_table(rng, [e[2] for e in case["pil"]])
+                if mode in ("valid_subset", "singletons", "one_group", "partition", "overlap", "unreadable"):
+                    break
+            case["mq"], case["mq_mode"] = mq, mode
+        return case
+
+    def run_impl(self, case):
+        if isinstance(case, dict) and case.get("kind") == "pipeline" and "mq" in case:
+            return _po.run_impl_mq(case)
+        return super().run_impl(case)
+
+    def oracle(self, case, impl_out):
+        o = super().oracle(case, impl_out)
+        if o and isinstance(case, dict) and case.get("kind") == "pipeline" and "mq" in case:
+            o += " [get_protein_group_results was called with mq_protein_groups_file = %s]" % _describe_file(case)
+        return o
+
+    def features(self, case, impl_out):
+        f = super().features(case, impl_out)
+        if isinstance(case, dict) and case.get("kind") == "pipeline":
+            f.append("pipeline:file-argument=" + (str(case.get("mq_mode")) if "mq" in case else "not passed"))
+        return f
+
+    def shrink(self, case):
+        yield from super().shrink(case)
+        if isinstance(case, dict) and case.get("kind") == "pipeline" and isinstance(case.get("mq"), dict):
+            mq = case["mq"]
+            for i in range(len(mq["rows"])):
+                yield dict(case, mq=dict(mq, rows=mq["rows"][:i] + mq["rows"][i + 1 :]))
     rule = _BaseP.rule + (
         "; 6 % of the cases run the whole inference function (harness/pipeline.py: a shipped method file through "
         "methods.parse_method_toml, 30 % with pseudo-genes requested, half of them preceded by a request of the same method "
         "with the other pseudo-gene switch; structured peptide lists of harness/gen_pil.py) and state C03 on the groups "
-        "handed to the first competition"
+        "handed to the first competition; 60 % of them pass a generated proteinGroups.txt (or a path without a file) as "
+        "mq_protein_groups_file — the statement is the same whatever file is passed"
     )
